@@ -1,1 +1,132 @@
-fn main(){}
+// H-engine: drives the public API of beff_core::subtyping on operands read from stdin (one JSON job per line)
+// and prints one JSON result per line.  Every job runs under catch_unwind.
+//
+// BDD syntax (JSON):  true | false | [kind, index, left, middle, right]   kind: "M" Mapping, "L" List, "P" Map, "S" Set
+// DNF syntax: [[ [pos atoms], [neg atoms] ], ...]   atom: [kind, index]
+use beff_core::subtyping::bdd::{Atom, Bdd, BddOps};
+use beff_core::subtyping::dnf::{bdd_to_dnf, dnf_to_bdd, Conjunction};
+use serde_json::{json, Value};
+use std::io::{self, BufRead, Write};
+use std::panic;
+use std::rc::Rc;
+
+mod sem;
+
+fn atom_of(kind: &str, idx: u64) -> Atom {
+    match kind {
+        "M" => Atom::Mapping(idx as usize),
+        "L" => Atom::List(idx as usize),
+        "P" => Atom::Map(idx as usize),
+        "S" => Atom::Set(idx as usize),
+        _ => panic!("bad atom kind {kind}"),
+    }
+}
+pub fn atom_json(a: &Atom) -> Value {
+    match a {
+        Atom::Mapping(i) => json!(["M", i]),
+        Atom::List(i) => json!(["L", i]),
+        Atom::Map(i) => json!(["P", i]),
+        Atom::Set(i) => json!(["S", i]),
+    }
+}
+pub fn bdd_of(v: &Value) -> Rc<Bdd> {
+    match v {
+        Value::Bool(true) => Rc::new(Bdd::True),
+        Value::Bool(false) => Rc::new(Bdd::False),
+        Value::Array(a) => Rc::new(Bdd::Node {
+            atom: atom_of(a[0].as_str().unwrap(), a[1].as_u64().unwrap()),
+            left: bdd_of(&a[2]),
+            middle: bdd_of(&a[3]),
+            right: bdd_of(&a[4]),
+        }),
+        _ => panic!("bad bdd"),
+    }
+}
+pub fn bdd_json(b: &Bdd) -> Value {
+    match b {
+        Bdd::True => json!(true),
+        Bdd::False => json!(false),
+        Bdd::Node { atom, left, middle, right } => {
+            let a = atom_json(atom);
+            json!([a[0], a[1], bdd_json(left), bdd_json(middle), bdd_json(right)])
+        }
+    }
+}
+fn dnf_json(d: &[Conjunction]) -> Value {
+    Value::Array(
+        d.iter()
+            .map(|c| {
+                json!([
+                    c.positive.iter().map(atom_json).collect::<Vec<_>>(),
+                    c.negative.iter().map(atom_json).collect::<Vec<_>>()
+                ])
+            })
+            .collect(),
+    )
+}
+fn dnf_of(v: &Value) -> Vec<Conjunction> {
+    v.as_array()
+        .unwrap()
+        .iter()
+        .map(|c| {
+            let f = |x: &Value| {
+                x.as_array()
+                    .unwrap()
+                    .iter()
+                    .map(|a| atom_of(a[0].as_str().unwrap(), a[1].as_u64().unwrap()))
+                    .collect::<Vec<_>>()
+            };
+            Conjunction { positive: f(&c[0]), negative: f(&c[1]) }
+        })
+        .collect()
+}
+
+fn run(job: &Value) -> Value {
+    let op = job["op"].as_str().unwrap();
+    match op {
+        "union" => bdd_json(&bdd_of(&job["a"]).union(&bdd_of(&job["b"]))),
+        "intersect" => bdd_json(&bdd_of(&job["a"]).intersect(&bdd_of(&job["b"]))),
+        "diff" => bdd_json(&bdd_of(&job["a"]).diff(&bdd_of(&job["b"]))),
+        "complement" => bdd_json(&bdd_of(&job["a"]).complement()),
+        "from_node" => {
+            let a = &job["atom"];
+            bdd_json(&Bdd::from_node(
+                atom_of(a[0].as_str().unwrap(), a[1].as_u64().unwrap()),
+                bdd_of(&job["l"]),
+                bdd_of(&job["m"]),
+                bdd_of(&job["r"]),
+            ))
+        }
+        "to_dnf" => dnf_json(&bdd_to_dnf(&bdd_of(&job["a"]))),
+        "from_dnf" => bdd_json(&dnf_to_bdd(&dnf_of(&job["d"]))),
+        _ => sem::run(op, job),
+    }
+}
+
+fn main() {
+    panic::set_hook(Box::new(|_| {}));
+    let stdin = io::stdin();
+    let stdout = io::stdout();
+    let mut out = stdout.lock();
+    for line in stdin.lock().lines() {
+        let line = line.unwrap();
+        if line.trim().is_empty() {
+            continue;
+        }
+        let job: Value = serde_json::from_str(&line).expect("job json");
+        let id = job["id"].clone();
+        let res = panic::catch_unwind(|| run(&job));
+        let v = match res {
+            Ok(v) => json!({"id": id, "ok": v}),
+            Err(e) => {
+                let msg = e
+                    .downcast_ref::<String>()
+                    .cloned()
+                    .or_else(|| e.downcast_ref::<&str>().map(|s| s.to_string()))
+                    .unwrap_or_else(|| "panic".to_string());
+                json!({"id": id, "panic": msg})
+            }
+        };
+        writeln!(out, "{}", v).unwrap();
+    }
+}
